@@ -886,11 +886,17 @@ func doCheck(prop, tier string) int {
 			}
 			seenOracle[f.Oracle] = true
 			path := reportViolation(bi, prop, tier, o, f)
-			reported = append(reported, path)
-			if exit == 0 {
-				exit = 1
+			if path == "" {
+				exit = 2 // the failure did not replay: nothing is reported as a violation
+				continue
 			}
+			reported = append(reported, path)
 		}
+	}
+	if len(reported) > 0 {
+		// a violation that replays in a fresh process stands, whatever else went wrong in other runs
+		// (a change that makes some runs spin until the step budget also breaks oracles in others)
+		exit = 1
 	}
 	writeEvidence(prop, tier, base, meta, a, bi, time.Since(t0), genWall, violations, len(infra), knownPrinted)
 	if exit == 0 {
@@ -949,6 +955,7 @@ func reportViolation(bi *buildInfo, prop, tier string, o runOut, f failure) stri
 		first, err := replayOnce(bi, prop, cand{Seed: o.Seed, Choices: choices}, 120*time.Second)
 		if err != nil || !hasOracle(first, f.Oracle) {
 			fmt.Printf("INFRA-ERROR property=%s seed=%d: the recorded choices do not reproduce oracle %q in a fresh process (%v) — engine nondeterminism\n", prop, o.Seed, f.Oracle, err)
+			return ""
 		} else {
 			best, bo, tried := shrink(bi, prop, o.Seed, f.Oracle, choices, time.Duration(envInt("VERIF_SHRINK_SEC", 90))*time.Second, 600)
 			rf.Shrunk = tried
